@@ -9,7 +9,7 @@ RELATED = {"C04": ["C04", "C08", "C14"], "C08": ["C08", "C04"], "C14": ["C14", "
 GROUP = {"C04": "store", "C08": "store", "C14": "store", "C06": "store", "C17": "store", "C01": "verify", "C02": "verify",
          "C05": "p2p", "C18": "p2p", "C13": "p2p", "C09": "c09", "C10": "c10", "C11": "c11", "C12": "c12", "C15": "c15", "C16": "c16", "C19": "c19", "C03": "sync", "C07": "sync"}
 only = set(sys.argv[1:])
-seeds = sorted(glob.glob(os.path.join(ROOT, "seeded", "*_m*")))
+seeds = sorted(glob.glob(os.path.join(ROOT, "seeded", "*m[0-9]")))
 groups = {}
 for d in seeds:
     meta = json.load(open(os.path.join(d, "meta.json")))
